@@ -333,11 +333,18 @@ def run(chk):
         okr = fs[-len(want):] == list(want) and flow.term_contains(base, lambda x: x == ("upvar", 2))
         oko = flow.term_contains(o_t, lambda x: x == ("upvar", 1))
         chk.ob("R6 binding", "R6d|Client::%s|assert_domain-args" % nm, okr and oko, where(co, ab), "assert_domain(origin=%s, rp_id=%s)" % (flow.term_str(o_t), flow.term_str(r_t)))
+    # R5 relies on the registrable-domain test rejecting names with empty labels: the label-aware suffix test lets an RP ID
+    # with a leading '.' through on purpose (".example.com" for host "www.example.com") and leaves it to this test
+    from .common import etld_rejects_empty_labels
+    found, okel, et, cbl, wit = etld_rejects_empty_labels(p)
+    if chk.require("R5 registrable domain", "R5|effective_tld_plus_one", found and cbl is not None, "public_suffix", "ListProvider::effective_tld_plus_one / its lookup not found"):
+        chk.touched(et)
+        chk.ob("R5 registrable domain", "R5|registrable-domain-test-rejects-empty-labels", okel, where(et, cbl), wit)
     chk.floor("R1", 1)
     chk.floor("R2", 1)
     # the default-features build has no Android origin: one group less in R3..R6
     chk.floor("R3", 3, default=2)
     chk.floor("R4", 2, default=1)
-    chk.floor("R5", 3, default=2)
+    chk.floor("R5", 4, default=3)
     chk.floor("R6", 8, default=7)
     chk.assumptions = ["url::Url::domain/scheme and idna behave as documented", "the PSL data itself is C10", "string semantics of the suffix test beyond separator evidence are not decided"]
